@@ -125,19 +125,21 @@ func selectionStores(f *ssa.Function) []selStore {
 
 func c08R1(r *Report, sh *ssa.Function) {
 	n := 0
-	for _, s := range selectionStores(sh) {
+	sites := selectionSites(sh)
+	for _, s := range sites {
 		n++
-		b := s.st.Block()
 		key := fmt.Sprintf("ServerHandshake/select=%d", s.val)
 		switch s.val {
 		case 2:
-			ok := hasMaskGuard(b, 2) && hasOptGuard(b, "AllowEncryption", true)
-			r.Check(ok, "R1", key, s.st.Pos(), "RC4 is selected only when offered and allowed", "the server selects RC4 on a path not dominated by (crypto_provide&2 != 0) and AllowEncryption: a mode is selected that the client did not offer or that the server's policy forbids")
+			ok := hasMaskIn(s.guards, 2) && hasOptIn(s.guards, "AllowEncryption", true)
+			r.Check(ok, "R1", key, s.pos, "RC4 is selected only when offered and allowed", "the server selects RC4 on a path not dominated by (crypto_provide&2 != 0) and AllowEncryption: a mode is selected that the client did not offer or that the server's policy forbids")
 		case 1:
-			ok := hasMaskGuard(b, 1) && hasOptGuard(b, "ForceEncryption", false)
-			r.Check(ok, "R1", key, s.st.Pos(), "plaintext is selected only when offered and not forced", "the server selects plaintext on a path not dominated by (crypto_provide&1 != 0) and !ForceEncryption: a server that forces encryption would continue in the clear")
+			ok := hasMaskIn(s.guards, 1) && hasOptIn(s.guards, "ForceEncryption", false)
+			r.Check(ok, "R1", key, s.pos, "plaintext is selected only when offered and not forced", "the server selects plaintext on a path not dominated by (crypto_provide&1 != 0) and !ForceEncryption: a server that forces encryption would continue in the clear")
+		case -1:
+			r.Undecided("R1", "ServerHandshake/select=?", s.pos, "the value written to crypto_select cannot be traced back to constants")
 		default:
-			r.Fail("R1", key, s.st.Pos(), "unknown crypto_select value %d", s.val)
+			r.Fail("R1", key, s.pos, "unknown crypto_select value %d", s.val)
 		}
 	}
 	r.Sentinel("R1", n, 4)
@@ -171,24 +173,50 @@ func c08R1(r *Report, sh *ssa.Function) {
 			}
 		}
 	}
+	if !nz {
+		// no explicit test: then every path to the reply has made a selection (switch with a rejecting default)
+		isSel := map[ssa.Instruction]bool{}
+		for _, st := range sites {
+			if st.val > 0 && !st.or {
+				isSel[st.in] = true
+			}
+		}
+		// a store whose traced values include "nothing" (0) is not a selection on every path: only constant stores count
+		constSel := func(in ssa.Instruction) bool {
+			st, ok := in.(*ssa.Store)
+			if !ok || !isSel[in] {
+				return false
+			}
+			k, okk := constInt(st.Val)
+			return okk && k != 0
+		}
+		miss, reached := pathsMissingEntry(sh, func(in ssa.Instruction) bool { return in == ssa.Instruction(w) }, nil, []edgeReq{{Name: "selection", Instr: constSel}})
+		nz = reached > 0 && len(miss) == 0
+	}
 	r.Check(nz, "R1", "ServerHandshake/reply-needs-selection", w.Pos(), "the server replies only after something was selected", "the server's reply is not dominated by crypto_select != 0")
 }
 
 func c08R2(r *Report, ch *ssa.Function) {
 	n := 0
-	for _, s := range selectionStores(ch) {
+	nOffer := 0
+	for _, s := range selectionSites(ch) {
 		n++
-		b := s.st.Block()
+		nOffer++
 		key := fmt.Sprintf("ClientHandshake/provide|=%d", s.val)
 		switch s.val {
 		case 1:
-			r.Check(hasOptGuard(b, "ForceEncryption", false), "R2", key, s.st.Pos(), "plaintext is offered only when encryption is not forced", "the client offers plaintext on a path not dominated by !ForceEncryption")
+			r.Check(hasOptIn(s.guards, "ForceEncryption", false), "R2", key, s.pos, "plaintext is offered only when encryption is not forced", "the client offers plaintext on a path not dominated by !ForceEncryption")
 		case 2:
-			r.Check(hasOptGuard(b, "AllowEncryption", true), "R2", key, s.st.Pos(), "RC4 is offered only when allowed", "the client offers RC4 on a path not dominated by AllowEncryption")
+			r.Check(hasOptIn(s.guards, "AllowEncryption", true), "R2", key, s.pos, "RC4 is offered only when allowed", "the client offers RC4 on a path not dominated by AllowEncryption")
+		case 3:
+			r.Check(hasOptIn(s.guards, "ForceEncryption", false) && hasOptIn(s.guards, "AllowEncryption", true), "R2", key, s.pos, "both methods are offered only when both are permitted", "the client offers both methods on a path not dominated by !ForceEncryption and AllowEncryption")
+		case -1:
+			r.Undecided("R2", "ClientHandshake/provide=?", s.pos, "the value written to crypto_provide cannot be traced back to constants")
 		default:
-			r.Fail("R2", key, s.st.Pos(), "unknown crypto_provide bit %d", s.val)
+			r.Fail("R2", key, s.pos, "unknown crypto_provide bit %d", s.val)
 		}
 	}
+	r.Sentinel("R2.offer", nOffer, 2)
 	// acceptance: returns inside the switch on cryptoSelect
 	ne := newNilEnv(r.P)
 	seenCase := map[int64]bool{}
@@ -575,89 +603,97 @@ func c08R6(r *Report) {
 	if !r.Anchor("R6", "crypto.(*Conn).Write", w != nil) || !r.Anchor("R6", "crypto.Conn.err", errF != nil) {
 		return
 	}
-	r.Fn(w)
-	// (1) every XORKeyStream is dominated by c.err == nil
+	// Conn.Write and the private helpers factored out of it (writeChunk): the rules apply to each of them
 	n := 0
-	allInstrs(w, func(in ssa.Instruction) {
-		c, ok := in.(*ssa.Call)
-		if !ok || !isStdCall(c, "crypto/rc4", "Cipher", "XORKeyStream") {
-			return
+	var unit []*ssa.Function
+	for _, f := range p.SrcFuncs() {
+		if relPkg(f) == "crypto" && f.Parent() == nil && (f == w || p.inUnitOf(f, w)) {
+			unit = append(unit, f)
 		}
-		n++
-		ok2 := false
-		for _, g := range guardsOf(c.Block()) {
-			g = g.norm()
-			if bo, isb := g.Cond.(*ssa.BinOp); isb && isNilConst(bo.Y) {
-				if fv, _ := loadedField(bo.X); fv == errF && ((bo.Op == token.NEQ && !g.Pol) || (bo.Op == token.EQL && g.Pol)) {
-					ok2 = true
+	}
+	for _, w := range unit {
+		r.Fn(w)
+		// (1) every XORKeyStream is dominated by c.err == nil
+		allInstrs(w, func(in ssa.Instruction) {
+			c, ok := in.(*ssa.Call)
+			if !ok || !isStdCall(c, "crypto/rc4", "Cipher", "XORKeyStream") {
+				return
+			}
+			n++
+			ok2 := p.guardedIP(c, func(g Guard) bool {
+				x, isNil, okn := nilFact(g)
+				if !okn || !isNil {
+					return false
 				}
-			}
-		}
-		r.Check(ok2, "R6", "Conn.Write/no-encrypt-after-error", c.Pos(), "nothing is encrypted once a write error is latched", "Conn.Write advances the keystream although a previous write failed: the keystream runs ahead of the wire")
-	})
-	// (2) after the underlying write, a non-nil error (incl. short write) is stored in c.err before returning
-	allInstrs(w, func(in ssa.Instruction) {
-		c, ok := in.(*ssa.Call)
-		if !ok || !c.Call.IsInvoke() || c.Call.Method.Name() != "Write" {
-			return
-		}
-		n++
-		isLatch := func(i ssa.Instruction) bool {
-			_, ok := isStoreToField(i, errF)
-			return ok
-		}
-		// excuse: the edge on which the (possibly replaced) error is nil
-		var errNil ssa.Value
-		allInstrs(w, func(i2 ssa.Instruction) {
-			iff, ok := i2.(*ssa.If)
-			if !ok {
-				return
-			}
-			bo, ok := iff.Cond.(*ssa.BinOp)
-			if !ok || bo.Op != token.NEQ || !isNilConst(bo.Y) || !isErrorType(bo.X.Type()) {
-				return
-			}
-			// the test that leads to the latch
-			if anyReach(iff.Block().Succs[0], isLatch) {
-				errNil = bo
-			}
+				fv, _ := loadedField(x)
+				return fv == errF
+			}, 0)
+			r.Check(ok2, "R6", "Conn.Write/no-encrypt-after-error", c.Pos(), "nothing is encrypted once a write error is latched", "Conn.Write advances the keystream although a previous write failed: the keystream runs ahead of the wire")
 		})
-		if errNil == nil {
-			r.Fail("R6", "Conn.Write/latch-on-error", c.Pos(), "no `err != nil` test leads to the latch of the write error")
-			return
-		}
-		exits := unreportedExits(mustCfg{c, isLatch, []excuse{{errNil, false}}})
-		r.Check(len(exits) == 0, "R6", "Conn.Write/latch-on-error", c.Pos(), "every failed or short underlying write is latched before returning", "a path returns after a failed underlying write without latching the error: the next Write would encrypt with a keystream the peer is no longer in step with")
-		// short write becomes an error: the error tested is a phi including io.ErrShortWrite
-		short := false
-		if bo, ok := errNil.(*ssa.BinOp); ok {
-			if ph, ok := bo.X.(*ssa.Phi); ok {
-				for _, e := range ph.Edges {
-					if ld, ok := e.(*ssa.UnOp); ok {
-						if g, ok := ld.X.(*ssa.Global); ok && g.Name() == "ErrShortWrite" {
-							short = true
+		// (2) after the underlying write, a non-nil error (incl. short write) is stored in c.err before returning
+		allInstrs(w, func(in ssa.Instruction) {
+			c, ok := in.(*ssa.Call)
+			if !ok || !c.Call.IsInvoke() || c.Call.Method.Name() != "Write" {
+				return
+			}
+			n++
+			isLatch := func(i ssa.Instruction) bool {
+				_, ok := isStoreToField(i, errF)
+				return ok
+			}
+			// excuse: the edge on which the (possibly replaced) error is nil
+			var errNil ssa.Value
+			allInstrs(w, func(i2 ssa.Instruction) {
+				iff, ok := i2.(*ssa.If)
+				if !ok {
+					return
+				}
+				bo, ok := iff.Cond.(*ssa.BinOp)
+				if !ok || bo.Op != token.NEQ || !isNilConst(bo.Y) || !isErrorType(bo.X.Type()) {
+					return
+				}
+				// the test that leads to the latch
+				if anyReach(iff.Block().Succs[0], isLatch) {
+					errNil = bo
+				}
+			})
+			if errNil == nil {
+				r.Fail("R6", "Conn.Write/latch-on-error", c.Pos(), "no `err != nil` test leads to the latch of the write error")
+				return
+			}
+			exits := unreportedExits(mustCfg{c, isLatch, []excuse{{errNil, false}}})
+			r.Check(len(exits) == 0, "R6", "Conn.Write/latch-on-error", c.Pos(), "every failed or short underlying write is latched before returning", "a path returns after a failed underlying write without latching the error: the next Write would encrypt with a keystream the peer is no longer in step with")
+			// short write becomes an error: the error tested is a phi including io.ErrShortWrite
+			short := false
+			if bo, ok := errNil.(*ssa.BinOp); ok {
+				if ph, ok := bo.X.(*ssa.Phi); ok {
+					for _, e := range ph.Edges {
+						if ld, ok := e.(*ssa.UnOp); ok {
+							if g, ok := ld.X.(*ssa.Global); ok && g.Name() == "ErrShortWrite" {
+								short = true
+							}
 						}
 					}
 				}
-			}
-			// named result: stored then loaded
-			if ld, ok := bo.X.(*ssa.UnOp); ok && ld.Op == token.MUL {
-				if al, ok := ld.X.(*ssa.Alloc); ok {
-					for _, ref := range *al.Referrers() {
-						if st, ok := ref.(*ssa.Store); ok {
-							if l2, ok := st.Val.(*ssa.UnOp); ok {
-								if g, ok := l2.X.(*ssa.Global); ok && g.Name() == "ErrShortWrite" {
-									short = true
+				// named result: stored then loaded
+				if ld, ok := bo.X.(*ssa.UnOp); ok && ld.Op == token.MUL {
+					if al, ok := ld.X.(*ssa.Alloc); ok {
+						for _, ref := range *al.Referrers() {
+							if st, ok := ref.(*ssa.Store); ok {
+								if l2, ok := st.Val.(*ssa.UnOp); ok {
+									if g, ok := l2.X.(*ssa.Global); ok && g.Name() == "ErrShortWrite" {
+										short = true
+									}
 								}
 							}
 						}
 					}
 				}
 			}
-		}
-		n++
-		r.Check(short, "R6", "Conn.Write/short-write-is-error", c.Pos(), "a short underlying write is turned into an error (and latched)", "a short underlying write is no longer turned into an error")
-	})
+			n++
+			r.Check(short, "R6", "Conn.Write/short-write-is-error", c.Pos(), "a short underlying write is turned into an error (and latched)", "a short underlying write is no longer turned into an error")
+		})
+	}
 	r.Sentinel("R6", n, 3)
 }
 
@@ -697,4 +733,158 @@ func madeLen(v ssa.Value) (int64, bool) {
 		return at.Len(), true
 	}
 	return 0, false
+}
+
+// selSite: a place where a bit/value of crypto_select or crypto_provide is chosen, with the facts that hold there.
+// The field may be written byte-wise (buf[3] = 2, buf[3] |= 1), as a 32-bit value serialised with PutUint32
+// (provided |= cryptoRC4; binary.BigEndian.PutUint32(buf, provided)), or computed by a helper of package crypto
+// (buf[3] = selectCrypto(provide, options)): the value is traced back to the constants it can take.
+type selSite struct {
+	pos    token.Pos
+	val    int64 // -1: not understood
+	or     bool
+	guards []Guard
+	in     ssa.Instruction // the instruction in the analysed function that fixes the value (store / call)
+}
+
+func hasOptIn(gs []Guard, name string, pol bool) bool {
+	c := optCond(name)
+	for _, g := range gs {
+		g = g.norm()
+		if g.Pol == pol && c(g.Cond) {
+			return true
+		}
+	}
+	return false
+}
+
+func hasMaskIn(gs []Guard, bit int64) bool {
+	for _, g := range gs {
+		g = g.norm()
+		bo, ok := g.Cond.(*ssa.BinOp)
+		if !ok {
+			continue
+		}
+		and, ok := stripIntConv(bo.X).(*ssa.BinOp)
+		z, okz := constInt(bo.Y)
+		if !ok || !okz || and.Op != token.AND {
+			continue
+		}
+		k, okk := constInt(and.Y)
+		if !okk {
+			k, okk = constInt(and.X)
+		}
+		if !okk || k != bit {
+			continue
+		}
+		set := false
+		switch z {
+		case 0:
+			set = (bo.Op == token.NEQ) == g.Pol
+		case bit:
+			set = (bo.Op == token.EQL) == g.Pol
+		default:
+			continue
+		}
+		if set && (bo.Op == token.NEQ || bo.Op == token.EQL) {
+			return true
+		}
+	}
+	return false
+}
+
+func selectionSites(f *ssa.Function) []selSite {
+	var out []selSite
+	var trace func(v ssa.Value, gs []Guard, at ssa.Instruction, d int, seen map[ssa.Value]bool)
+	trace = func(v ssa.Value, gs []Guard, at ssa.Instruction, d int, seen map[ssa.Value]bool) {
+		v = stripIntConv(v)
+		if cv, ok := v.(*ssa.Convert); ok {
+			v = cv.X // narrowing conversions keep the low bits the field uses
+			v = stripIntConv(v)
+		}
+		if d > 8 {
+			out = append(out, selSite{pos: at.Pos(), val: -1, guards: gs, in: at})
+			return
+		}
+		if seen[v] {
+			return
+		}
+		seen[v] = true
+		switch x := v.(type) {
+		case *ssa.Const:
+			if k, ok := constInt(x); ok {
+				if k != 0 {
+					out = append(out, selSite{pos: at.Pos(), val: k, guards: gs, in: at})
+				}
+				return
+			}
+		case *ssa.Phi:
+			for i, e := range x.Edges {
+				trace(e, append(append([]Guard{}, gs...), guardsOnEdge(x.Block().Preds[i], x.Block())...), at, d+1, seen)
+			}
+			return
+		case *ssa.BinOp:
+			if x.Op == token.OR {
+				a, b := x.X, x.Y
+				if ka, oka := constInt(a); oka {
+					if kb, okb := constInt(b); okb {
+						// 0 | 1: the first bit set into a fresh mask
+						if ka|kb != 0 {
+							out = append(out, selSite{pos: x.Pos(), val: ka | kb, or: true, guards: append(append([]Guard{}, gs...), guardsOf(x.Block())...), in: at})
+						}
+						return
+					}
+					a, b = b, a
+				}
+				if k, ok := constInt(b); ok {
+					out = append(out, selSite{pos: x.Pos(), val: k, or: true, guards: append(append([]Guard{}, gs...), guardsOf(x.Block())...), in: at})
+					trace(a, gs, at, d+1, seen)
+					return
+				}
+			}
+		case *ssa.UnOp:
+			// a load of the field's own byte (buf[3] |= 1 reads it back): nothing new
+			if x.Op == token.MUL {
+				if _, ok := x.X.(*ssa.IndexAddr); ok {
+					return
+				}
+			}
+		case *ssa.Call:
+			h := x.Call.StaticCallee()
+			if h != nil && h.Blocks != nil && !x.Call.IsInvoke() && relPkg(h) == relPkg(f) {
+				for _, ret := range returnsOf(h) {
+					res := retResults(ret)
+					if len(res) != 1 {
+						break
+					}
+					// the helper's own branch facts (about its parameters) hold for the arguments
+					trace(res[0], append(append([]Guard{}, gs...), guardsOf(ret.Block())...), at, d+1, map[ssa.Value]bool{})
+				}
+				return
+			}
+		}
+		out = append(out, selSite{pos: at.Pos(), val: -1, guards: gs, in: at})
+	}
+	is4 := func(v ssa.Value) bool { l, ok := madeLen(v); return ok && l == 4 }
+	allInstrs(f, func(in ssa.Instruction) {
+		switch x := in.(type) {
+		case *ssa.Store:
+			ia, ok := x.Addr.(*ssa.IndexAddr)
+			if !ok || !is4(ia.X) {
+				return
+			}
+			if k, okk := constInt(ia.Index); !okk || k != 3 {
+				return
+			}
+			trace(x.Val, guardsOf(x.Block()), x, 0, map[ssa.Value]bool{})
+		case *ssa.Call:
+			if o := calleeObj(x); o != nil && o.Pkg() != nil && o.Pkg().Path() == "encoding/binary" && o.Name() == "PutUint32" {
+				args := x.Call.Args
+				if len(args) >= 2 && is4(args[len(args)-2]) {
+					trace(args[len(args)-1], guardsOf(x.Block()), x, 0, map[ssa.Value]bool{})
+				}
+			}
+		}
+	})
+	return out
 }
